@@ -72,6 +72,12 @@ def _apply(entry: dict, scratch: str) -> Optional[str]:
 
 
 def _run_one(args) -> Tuple[str, str, List[str], str]:
+  from .bigframe import run as _run_big
+
+  return _run_big(_run_one_inner, args)
+
+
+def _run_one_inner(args) -> Tuple[str, str, List[str], str]:
   """(entry id, status, new finding keys, note) - executed in a worker process."""
   prop, entry, repo = args
   import gc
